@@ -84,18 +84,20 @@ Definition f64_of_Z (z : Z) : option F :=
   else if 0 <? z then f64_of_pos z
   else option_map (fun b => two63 + b) (f64_of_pos (- z)).
 
-(* Some z iff the double is finite and its value is exactly the integer z *)
-Definition f64_exact_int (b : F) : option Z :=
-  let s := b / two63 in
-  let e := f_mag b / two52 in
-  let fr := b mod two52 in
+(* magnitude bits (sign cleared) -> Some z iff the double is finite and its value is the integer z *)
+Definition f64_mag_int (mg : Z) : option Z :=
+  let e := mg / two52 in
+  let fr := mg mod two52 in
   if e =? 2047 then None
   else
     let m := if e =? 0 then fr else two52 + fr in
     let ex := (if e =? 0 then 1 else e) - 1075 in
-    let v := if 0 <=? ex then Some (m * 2 ^ ex)
-             else if m mod 2 ^ (- ex) =? 0 then Some (m / 2 ^ (- ex)) else None in
-    option_map (fun x => if s =? 1 then - x else x) v.
+    if 0 <=? ex then Some (m * 2 ^ ex)
+    else if m mod 2 ^ (- ex) =? 0 then Some (m / 2 ^ (- ex)) else None.
+
+(* Some z iff the double is finite and its value is exactly the integer z *)
+Definition f64_exact_int (b : F) : option Z :=
+  option_map (fun x => if b / two63 =? 1 then - x else x) (f64_mag_int (f_mag b)).
 
 (* times: python int / numpy integer  |  python float / numpy float64 *)
 Inductive tval := TInt (z : Z) | TFloat (f : F).
@@ -457,9 +459,9 @@ Fixpoint str_ltb (a b : string) : bool :=
 Fixpoint insert {A} (ltb : A -> A -> bool) (x : A) (l : list A) : list A :=
   match l with
   | [] => [x]
-  | y :: t => if ltb x y then x :: l else y :: insert ltb x t
+  | y :: t => if ltb y x then y :: insert ltb x t else x :: l
   end.
-(* stable insertion sort; inserting from the right keeps equal elements in order *)
+(* stable insertion sort: an element is placed before the first one that is not smaller *)
 Definition isort {A} (ltb : A -> A -> bool) (l : list A) : list A :=
   fold_right (insert ltb) [] l.
 
